@@ -98,6 +98,13 @@ def cases(ctx):
         if ctx.mine(i):
             yield {'kind': 'base', 'base': k}
     cids = ['packaged'] + [['gen', ctx.seed * 7919 + 9000 + j] for j in range(3 if ctx.tier == 'quick' else 20)]
+    # the configuration as a living object: used, then an element's entry edited or replaced, then used again for a message
+    # with the same bitmap; and a fresh configuration object per call, thrown away after it
+    for n in range(240 if ctx.tier == 'quick' else 6000):
+        i += 1
+        if ctx.mine(i):
+            yield {'kind': 'lifecycle', 'n': n, 'mode': ('entry_replaced', 'entry_edited', 'fresh_objects')[n % 3],
+                   'cfg': cids[(n // 3) % len(cids)] if (n // 3) % 2 else ['special', 0]}
     for cid in cids:
         for enc in ('latin_1', 'cp500'):
             for hexbm in (False, True):
@@ -116,9 +123,9 @@ def reject_class(reason):
     return 'other'
 
 
-def judge_one(ctx, data, cid, enc, hexbm, how, enumerated):
-    cfg = msgwork.cfg_of(cid)
-    case1 = {'kind': 'one', 'data': hx(data), 'cfg': cid, 'enc': enc, 'hex': hexbm}
+def judge_one(ctx, data, cid, enc, hexbm, how, enumerated, cfg=None, witness=None):
+    cfg = cfg if cfg is not None else msgwork.cfg_of(cid)
+    case1 = witness or {'kind': 'one', 'data': hx(data), 'cfg': cid, 'enc': enc, 'hex': hexbm}
     kind, val = ctx.call(ctx.iso.loads, data, encoding=enc, iso_config=cfg, hex_bitmap=hexbm, budget=sentinel.budget_for(len(data)))
     ctx.count('loads calls')
     accepted = kind == 'ok'
@@ -205,6 +212,9 @@ def judge(ctx, case):
             ctx.sample({'base': k, 'cfg': cid, 'enc': enc, 'hex_bitmap': hexbm, 'wire_len': len(data),
                         'variable_elements': len(L.prefixes), 'wire_head': hx(data[:40])})
         return
+    if kind == 'lifecycle':
+        lifecycle(ctx, case)
+        return
     if kind == 'overlaps':
         cfg = msgwork.cfg_of(case['cfg'])
         n = 0
@@ -216,6 +226,77 @@ def judge(ctx, case):
         ctx.count('inputs from family constructed_overlaps', n)
         return
     raise ValueError(kind)
+
+
+FRAMING_EDITS = ('resize_fixed', 'llvar_to_lllvar')
+
+
+def _framing_edit(rng, cfg):
+    for attempt in range(20):
+        e = msgwork.pick_edit(rng, cfg)
+        if e and e[0] in FRAMING_EDITS:
+            return e
+    return None
+
+
+def lifecycle(ctx, case):
+    """
+    Decoding must follow the configuration it is handed AS IT IS NOW.  One configuration object is used for a decode, an
+    element's entry is then edited in place or replaced by a new dict, and a message with the same bitmap is decoded under the
+    same object; or every call gets a fresh configuration object (differing in one element) that is thrown away afterwards, so
+    that object identities are reused.  Every decode is judged by the two references under the configuration in force.
+    """
+    import copy
+    rng = ctx.rng_global('c08life', case['n'])
+    base_cfg = msgwork.cfg_of(case['cfg'])
+    enc = rng.choice(('latin_1', 'cp500', 'ascii'))
+    hexbm = rng.random() < 0.3
+    edit = _framing_edit(rng, base_cfg)
+    if not edit:
+        ctx.count('lifecycle cases without an applicable edit')
+        return
+    bit = edit[1]
+    others = [b for b in gen.data_bits(base_cfg) if b != bit and b not in ref.carriers_of(base_cfg)]
+    subset = sorted(set(rng.sample(others, min(len(others), rng.randint(1, 6))) + [bit]))
+    witness = dict(case)
+
+    def message(cfg):
+        for attempt in range(10):
+            msg = gen.gen_message(rng, cfg, enc, subset=subset, pds_mode='none')
+            if set(msg) == {'MTI'} | {'DE%d' % b for b in subset}:
+                return msg
+        return None
+    if case['mode'] == 'fresh_objects':
+        n = 0
+        for r in range(40):
+            cfg = copy.deepcopy(base_cfg)
+            if r % 2:
+                msgwork.apply_edit(cfg, list(edit) + (['replace'] if r % 4 == 1 else []))
+            msg = message(cfg)
+            if msg is None:
+                continue
+            judge_one(ctx, ref.encode(msg, cfg, enc, hexbm), case['cfg'], enc, hexbm, 'lifecycle:fresh_object:%d' % r, False,
+                      cfg=cfg, witness=witness)
+            del cfg
+            n += 1
+        ctx.count('decodes under a fresh configuration object thrown away afterwards', n)
+        return
+    cfg = copy.deepcopy(base_cfg)
+    msg1 = message(cfg)
+    if msg1 is None:
+        ctx.count('lifecycle cases without a message carrying the edited element')
+        return
+    wire1 = ref.encode(msg1, cfg, enc, hexbm)
+    judge_one(ctx, wire1, case['cfg'], enc, hexbm, 'lifecycle:first_use', False, cfg=cfg, witness=witness)
+    msgwork.apply_edit(cfg, list(edit) + (['replace'] if case['mode'] == 'entry_replaced' else []))
+    msg2 = message(cfg)
+    if msg2 is None:
+        return
+    wire2 = ref.encode(msg2, cfg, enc, hexbm)
+    judge_one(ctx, wire2, case['cfg'], enc, hexbm, 'lifecycle:after_%s:%s' % (case['mode'], edit[0]), False, cfg=cfg, witness=witness)
+    # the message framed for the configuration as it WAS, read under the configuration as it is now (whatever class that is)
+    judge_one(ctx, wire1, case['cfg'], enc, hexbm, 'lifecycle:old_framing_after_%s' % case['mode'], False, cfg=cfg, witness=witness)
+    ctx.count('decodes after the element entry was ' + ('replaced by a new dict' if case['mode'] == 'entry_replaced' else 'edited in place'))
 
 
 def canaries(ctx):
@@ -255,6 +336,10 @@ def require(m):
         reasons.append('no base with multi-byte characters')
     if not c.get('inputs from family hex_bitmap_spellings'):
         reasons.append('hex bitmap spellings never produced')
+    for what in ('decodes after the element entry was replaced by a new dict', 'decodes after the element entry was edited in place',
+                 'decodes under a fresh configuration object thrown away afterwards'):
+        if not c.get(what) and not m['violations']:
+            reasons.append('never produced: ' + what)
     if not c.get('inputs from family constructed_overlaps'):
         reasons.append('constructed overlaps never produced')
     need = {'negative_length', 'element_outside_message', 'bytes_left_over', 'unconfigured_bit'}
